@@ -243,13 +243,15 @@ func soloRun(ctx context.Context, start *pgsim.DB, elems []bulkElem) ([]soloStep
 		if e.Solo.Kind == "invalid" {
 			st = soloStep{Class: "invalid"}
 		} else {
-			out := lx.Apply(ctx, ctrl, e.Solo)
+			out := safeApply(ctx, ctrl, e.Solo)
 			if out.Class == "ENGINE" {
 				return nil, fmt.Errorf("solo %s: %v", e.Name, out.Err)
 			}
 			st = soloStep{OK: out.Err == nil, Class: out.Class, Data: "null"}
 			if out.Err == nil {
-				st.LogID = *out.Log.ID
+				if out.Log != nil && out.Log.ID != nil {
+					st.LogID = *out.Log.ID
+				}
 				if out.Tx != nil {
 					st.Data = normOf(*out.Tx)
 				}
@@ -291,13 +293,15 @@ func soloRunInTx(ctx context.Context, start *pgsim.DB, elems []bulkElem) ([]solo
 			steps = append(steps, soloStep{Class: "invalid"})
 			continue
 		}
-		out := lx.Apply(ctx, txCtrl, e.Solo)
+		out := safeApply(ctx, txCtrl, e.Solo)
 		if out.Class == "ENGINE" {
 			return nil, fmt.Errorf("solo-in-tx %s: %v", e.Name, out.Err)
 		}
 		st := soloStep{OK: out.Err == nil, Class: out.Class, Data: "null"}
 		if out.Err == nil {
-			st.LogID = *out.Log.ID
+			if out.Log != nil && out.Log.ID != nil {
+				st.LogID = *out.Log.ID
+			}
 			if out.Tx != nil {
 				st.Data = normOf(*out.Tx)
 			}
